@@ -23,6 +23,13 @@ var solvers = []solverSpec{
 	{"cvc5", func(f string, t int) []string {
 		return []string{"cvc5", fmt.Sprintf("--tlimit=%d", t*1000), "--produce-models", f}
 	}},
+	// integer-based bit-vector back ends: much faster on add/compare chains over 64-bit lengths
+	{"cvc5-bvint", func(f string, t int) []string {
+		return []string{"cvc5", fmt.Sprintf("--tlimit=%d", t*1000), "--produce-models", "--solve-bv-as-int=iand", f}
+	}},
+	{"z3-new-bvint", func(f string, t int) []string {
+		return []string{"z3-new", fmt.Sprintf("-T:%d", t), "smt.bv.solver=2", f}
+	}},
 }
 
 type answer struct {
